@@ -72,7 +72,7 @@ class C16:
         args = self.draw_image(rng)
         n = 0
         for phase in ('save', 'load'):
-            for fk in (1, 2, 3, 4):
+            for fk in (2, 3, 4):
                 for idx in range(15 if phase == 'save' else 10):
                     n += 1
                     path = 'sweep_%d.h5' % n
@@ -150,23 +150,38 @@ class C16:
                         path = 'im_%d.h5' % npath
                     written.append((path, 'h5'))
                     if faulty and rng.random() < 0.4:
+                        # errno faults inside libhdf5 give third-party
+                        # undefined behaviour (silent corruption or SIGSEGV,
+                        # differently from run to run), which would break
+                        # "one seed = one execution": HDF5 operations get
+                        # short transfers, EINTR and crashes only
                         b.emit('arm_io_fault', {
-                            'kind': rng.choice([1, 1, 2, 3, 4]),
+                            'kind': rng.choice([2, 3, 4, 4]),
                             'index': rng.randint(0, 14),
-                            'err': rng.choice([28, 5, 122])})
+                            'err': 0})
+                    armed_save = b.events[-1]['op'] == 'arm_io_fault'
                     b.emit('img_save', {'img': cur, 'path': path},
                            tags={'k': 'h5-save', 'save': True, 'fmt': 'h5'})
-                    if faults['F1'] and rng.random() < 0.4:
+                    # an I/O error inside libhdf5 can corrupt that library's
+                    # process-global state (a later HDF5 call may or may not
+                    # segfault): the simulated user abandons the process
+                    # after every HDF5 operation that ran with a fault armed
+                    if armed_save or (faults['F1'] and rng.random() < 0.4):
                         b.restart()
                         state['imgs'] = []
+                    armed_load = False
                     if faulty and rng.random() < 0.25:
                         b.emit('arm_io_fault', {
-                            'kind': rng.choice([1, 2, 3, 4]),
-                            'index': rng.randint(0, 10),
-                            'err': rng.choice([5, 13])})
+                            'kind': rng.choice([2, 3, 4]),
+                            'index': rng.randint(0, 10), 'err': 0})
+                        armed_load = True
                     cur = b.emit('img_load', {'path': path}, store='det',
                                  tags={'k': 'h5-load', 'load': True,
                                        'fmt': 'h5'})
+                    if armed_load:
+                        b.restart()
+                        state['imgs'] = []
+                        break
                     state['imgs'].append((cur, None))
             elif c < 0.58:
                 # TIFF export / import
@@ -186,6 +201,11 @@ class C16:
                 if iargs['channels']:
                     depth = 8       # documented: other depths may not be
                     #                 supported for colour images
+                if faulty and rng.random() < 0.3:
+                    b.emit('arm_io_fault', {
+                        'kind': rng.choice([1, 2, 3, 4, 5]),
+                        'index': rng.randint(0, 6),
+                        'err': rng.choice([28, 5, 122])})
                 b.emit('img_save', {'img': img, 'path': path, 'via': via,
                                     'depth': depth, 'scaling': 'auto'},
                        tags={'k': 'tif-save', 'save': True, 'fmt': 'tif',
@@ -194,6 +214,11 @@ class C16:
                 if faults['F1'] and rng.random() < 0.3:
                     b.restart()
                     state['imgs'] = []
+                if faulty and rng.random() < 0.25:
+                    b.emit('arm_io_fault', {
+                        'kind': rng.choice([1, 2, 3, 4]),
+                        'index': rng.randint(0, 6),
+                        'err': rng.choice([5, 13])})
                 b.emit('img_load', {'path': path}, store='tifimg',
                        tags={'k': 'tif-load', 'load': True, 'fmt': 'tif',
                              'depth': depth})
